@@ -75,6 +75,50 @@ PROPS = {
         "not_decided": ["lifting primitive equivalence to whole-datum equivalence (parametricity, A6)",
                         "Take / into_left_after_take sub-readers are covered under C17"],
     },
+    "C13": {
+        "level": "other",
+        "design_ref": "DESIGN.md §3 C13",
+        "technique": "Kani contract harness on the real record serializer (record()/serialize_record_value/end/Drop) over every presentation of a 3-field record; field_idx (HashMap name table) under an assumed contract",
+        "level_text": "Bounded deductive check, exhaustive at its size by symbolic choice (not sampled): for record {a: long, b: [null,long], c: long} every sequence of up to 3 presented "
+                      "(name, value) pairs over {a,b,c,unknown} - all orders, omissions, duplicates - is run through the real serialize_record_value / end / Drop (field_idx assumed); Ok iff the "
+                      "presentation is valid, bytes equal the schema-order specification encoding (null for omitted b), otherwise Err, never a panic.",
+        "level_note": "One record shape (3 fields, one nullable); field_idx (name -> index through a HashMap) is NOT executed: its contract is assumed and restated in the harness (A2'); "
+                      "values restricted to one-byte varints (value encoding is C02). Nested records/arrays of records and the map presentation are not covered.",
+        "assumptions": [A1, A2, A4, A7, A8],
+        "explanation": "Exhaustive over 4^3 x 4 presentations x symbolic values for the stated record; the in-order fast path, out-of-order buffering, flush of contiguous buffered "
+                       "successors, end() filling of omitted nullable fields and all error exits are on explored paths (cover properties checked each run).",
+        "not_decided": ["records with more than 3 fields, nested out-of-order records sharing the pool, records inside arrays/unions",
+                        "SerializeMap presentation (serialize_key / serialize_value / serialize_entry) funnels into the same functions but is not driven here"],
+    },
+    "C14": {
+        "level": "other",
+        "design_ref": "DESIGN.md §3 C14",
+        "technique": "representation invariant pool_wf (every pooled buffer empty) proved after every explored history of the real record serializer + probe equality on a reused configuration (Kani, bounded histories)",
+        "level_text": "Bounded deductive check: after every presentation explored for C13 (successes and failures at every position) the pooled buffers held by the SerializerConfig are all "
+                      "empty (pool_wf), and an out-of-order probe serialized with the used configuration gives exactly the bytes a fresh configuration gives and trips no internal "
+                      "`is_empty` assertion. Histories of length 1 followed by a probe; pool_wf being re-established after each step is what makes longer histories follow.",
+        "level_note": "Sink I/O errors are not injected (writer is a Vec); the buffered-bytes sequence path (seq_or_tuple.rs) is covered by a separate obligation when present; A1 A2 A4 A8.",
+        "assumptions": [A1, A2, A4, A7, A8],
+        "explanation": "Invariant + frame: the two pool fields are touched only in struct_or_map.rs (record/Drop/end/serialize_record_value) and seq_or_tuple.rs (buffered_bytes/Drop); "
+                       "each record-side site is on an explored path of the harnesses.",
+        "not_decided": ["failure injected by the sink (io::Error after n bytes)", "nested out-of-order records", "histories longer than one serialization + probe are covered only through the invariant argument"],
+    },
+    "C15": {
+        "level": "proof",
+        "design_ref": "DESIGN.md §3 C15",
+        "technique": "inductive one-step contracts of the container Writer from an arbitrary well-formed state (Kani), block bytes compared with the specification's block layout",
+        "level_text": "Deductive, inductive in the call history: each public entry point (serialize ok, serialize failing after partial output, push_serialized, finish_block, "
+                      "into_inner, Drop) is proved from an ARBITRARY quiescent well-formed writer state (any element count, any sync marker, any approx_block_size incl. 0, any earlier "
+                      "sink content) to re-establish well-formedness, to grow the sink only by complete blocks of the specified layout, to count a value once iff Ok, and to leave "
+                      "buffer and count untouched for a failed value. Histories of any length follow by induction; only the open buffer's byte length is bounded (<= 3), labelled.",
+        "level_note": "Null codec only (compression is external, C05); Writer states are constructed directly (header writing by build() goes through serde flatten + serde_json and is a "
+                      "bounded C06 obligation when tractable); sink = Vec<u8>; Schema via the static-node constructor; A1 A4 A8.",
+        "assumptions": [A1, A4, A7, A8, A9],
+        "explanation": "Ghost view: sink, open block (count, bytes), pending. wf: count == 0 => buffer empty, nothing pending. Functions under contract: Writer::{serialize, "
+                       "push_serialized, finish_block, flush_finished_block, into_inner, drop}, WriterInner::{serialize, push_serialized, finish_block, compressed_block}.",
+        "not_decided": ["compressed codecs (external libraries, C05)", "open buffers longer than 3 bytes (the code has no length-dependent logic besides the >= approx_block_size test, which is symbolic)",
+                        "element counts above i64::MAX (push_serialized with a false n_objects): the count is cast to i64"],
+    },
     "C16": {
         "level": "other",
         "design_ref": "DESIGN.md §3 C16",
